@@ -169,6 +169,9 @@ class AvroJSONDecoder:
             for key in self._current:
                 break
             yield
+            # Finish the value (records nested in it still have their end
+            # actions pending) before going back to the map itself
+            self._parser.run_pending_actions()
             self._pop()
             del self._current[key]
 
